@@ -547,6 +547,33 @@ var (
 	reCheck = regexp.MustCompile("(?i)(?:CONSTRAINT\\s+[\"`]?(\\w+)[\"`]?\\s+)?CHECK\\s*\\(")
 )
 
+// maskQuoted returns the statement with the content of its quoted
+// strings and identifiers replaced by underscores (of the same length).
+func maskQuoted(stmt string) string {
+	b := []byte(stmt)
+	for i := 0; i < len(b); i++ {
+		switch q := b[i]; q {
+		case '\'', '"', '`':
+			j := i + 1
+			for ; j < len(b); j++ {
+				if b[j] != q {
+					b[j] = '_'
+					continue
+				}
+				// A quote is escaped by doubling it.
+				if j+1 < len(b) && b[j+1] == q {
+					b[j], b[j+1] = '_', '_'
+					j++
+					continue
+				}
+				break
+			}
+			i = j
+		}
+	}
+	return string(b)
+}
+
 // fillConstName fills foreign-key constrain names from CREATE TABLE statement.
 func fillConstName(t *schema.Table) error {
 	var c CreateStmt
@@ -618,8 +645,10 @@ func fillChecks(t *schema.Table) error {
 	if !sqlx.Has(t.Attrs, &c) {
 		return fmt.Errorf("missing CREATE statement for table: %q", t.Name)
 	}
+	// The text of a string literal (e.g. a default value) is not searched for constraints.
+	masked := maskQuoted(c.S)
 	for i := 0; i < len(c.S); {
-		idx := reCheck.FindStringSubmatchIndex(c.S[i:])
+		idx := reCheck.FindStringSubmatchIndex(masked[i:])
 		// No more matches.
 		if len(idx) != 4 {
 			break
@@ -630,7 +659,7 @@ func fillChecks(t *schema.Table) error {
 			check.Name = c.S[idx[2]:idx[3]]
 		}
 		t.Attrs = append(t.Attrs, check)
-		c.S = c.S[idx[1]+len(check.Expr)-1:]
+		c.S, masked = c.S[idx[1]+len(check.Expr)-1:], masked[idx[1]+len(check.Expr)-1:]
 	}
 	return nil
 }
